@@ -46,6 +46,19 @@ func sanitizeLangSys(langSys *tables.LangSys, featuresCount int) {
 		// invalid index : replace it by the sentinel value
 		langSys.RequiredFeatureIndex = 0xFFFF
 	}
+	for _, index := range langSys.FeatureIndices {
+		if int(index) >= featuresCount {
+			// at least one invalid index: remove them (keeping the font data unchanged)
+			valid := make([]uint16, 0, len(langSys.FeatureIndices))
+			for _, index := range langSys.FeatureIndices {
+				if int(index) < featuresCount {
+					valid = append(valid, index)
+				}
+			}
+			langSys.FeatureIndices = valid
+			break
+		}
+	}
 }
 
 type Script struct {
